@@ -29,7 +29,70 @@ fn answers<E: std::fmt::Debug>(qs: &[(&str, Result<Binary, E>)]) -> Vec<(String,
     qs.iter().map(|(n, r)| (n.to_string(), match r { Ok(b) => String::from_utf8_lossy(b.as_slice()).to_string(), Err(e) => format!("error: {:?}", e) })).collect()
 }
 
+/// answers are compared as JSON values (maps serialised from hash maps have no fixed key order)
+fn canon(v: Vec<(String, String)>) -> Vec<(String, String)> {
+    v.into_iter().map(|(n, s)| { let c = serde_json::from_str::<Value>(&s).map(|j| j.to_string()).unwrap_or(s); (n, c) }).collect()
+}
+
+fn judge_for(out: &mut Out, prop: &str, what: &str, from: &str, migrated: Result<(), String>, before: Vec<(String, String)>, after: Vec<(String, String)>) {
+    let (before, after) = (canon(before), canon(after));
+    out.monitor_evals += 1;
+    let replay = json!({"kind": "migration_probe", "contract": what, "migrated_from_version": from, "queries_before": before, "queries_after": after});
+    out.count(&format!("migration:{}:{}", what, if migrated.is_ok() { "ok" } else { "rejected" }));
+    match migrated {
+        Err(e) => out.monitor_fail(prop, &format!("{what}: the migration from the preceding version {from} fails: {e}"), replay),
+        Ok(()) => if before != after { out.monitor_fail(prop, &format!("{what}: a migration from the preceding version {from} changed what the contract reports about its ledgers"), replay); },
+    }
+}
+
+fn env_at(time: cosmwasm_std::Timestamp, height: u64) -> cosmwasm_std::Env { let mut e = mock_env(); e.block.time = time; e.block.height = height; e }
+
+/// whale_lair: bonds, unbonding records, totals and the global index as reported before and after (C08)
+pub fn probe_lair(out: &mut Out, dump: &[(Vec<u8>, Vec<u8>)], users: &[&str], denoms: &[&str], time: cosmwasm_std::Timestamp, height: u64) {
+    use white_whale_std::whale_lair::{MigrateMsg, QueryMsg};
+    let Some((mut deps, from)) = storage_one_version_back(dump) else { out.count("migration:lair:no_previous_version"); return };
+    let q = |d: &OwnedDeps<MockStorage, MockApi, MockQuerier>| {
+        let mut qs: Vec<(String, Result<Binary, cosmwasm_std::StdError>)> = vec![
+            ("TotalBonded".into(), whale_lair::contract::query(d.as_ref(), env_at(time, height), QueryMsg::TotalBonded {})),
+            ("GlobalIndex".into(), whale_lair::contract::query(d.as_ref(), env_at(time, height), QueryMsg::GlobalIndex {})),
+            ("Config".into(), whale_lair::contract::query(d.as_ref(), env_at(time, height), QueryMsg::Config {}))];
+        for u in users {
+            qs.push((format!("Bonded{{{u}}}"), whale_lair::contract::query(d.as_ref(), env_at(time, height), QueryMsg::Bonded { address: u.to_string() })));
+            for dn in denoms {
+                qs.push((format!("Unbonding{{{u},{dn}}}"), whale_lair::contract::query(d.as_ref(), env_at(time, height), QueryMsg::Unbonding { address: u.to_string(), denom: dn.to_string(), start_after: None, limit: Some(30) })));
+                qs.push((format!("Withdrawable{{{u},{dn}}}"), whale_lair::contract::query(d.as_ref(), env_at(time, height), QueryMsg::Withdrawable { address: u.to_string(), denom: dn.to_string() })));
+            }
+        }
+        qs.into_iter().map(|(n, r)| (n, match r { Ok(b) => String::from_utf8_lossy(b.as_slice()).to_string(), Err(e) => format!("error: {:?}", e) })).collect::<Vec<_>>()
+    };
+    let before = q(&deps);
+    let r = run_catch(|| whale_lair::contract::migrate(deps.as_mut(), env_at(time, height), MigrateMsg {}).map(|_| ()), |_e| E_OTHER);
+    let migrated = match r { Outcome::Ok(()) => Ok(()), Outcome::Err(_) => Err("error".to_string()), Outcome::Panic(m) => Err(format!("abort: {m}")) };
+    let after = q(&deps);
+    judge_for(out, "C08", "whale_lair", &from, migrated, before, after);
+}
+
+/// fee_distributor: the epochs it reports before and after, with the clock well past the current epoch's end (C09)
+pub fn probe_distributor(out: &mut Out, dump: &[(Vec<u8>, Vec<u8>)], time: cosmwasm_std::Timestamp, height: u64) {
+    use white_whale_std::fee_distributor::{MigrateMsg, QueryMsg};
+    let Some((mut deps, from)) = storage_one_version_back(dump) else { out.count("migration:distributor:no_previous_version"); return };
+    let q = |d: &OwnedDeps<MockStorage, MockApi, MockQuerier>| {
+        let mut qs: Vec<(String, Result<Binary, cosmwasm_std::StdError>)> = vec![
+            ("CurrentEpoch".into(), fee_distributor::contract::query(d.as_ref(), env_at(time, height), QueryMsg::CurrentEpoch {})),
+            ("ClaimableEpochs".into(), fee_distributor::contract::query(d.as_ref(), env_at(time, height), QueryMsg::ClaimableEpochs {})),
+            ("Config".into(), fee_distributor::contract::query(d.as_ref(), env_at(time, height), QueryMsg::Config {}))];
+        for id in 1..12u64 { qs.push((format!("Epoch{{{id}}}"), fee_distributor::contract::query(d.as_ref(), env_at(time, height), QueryMsg::Epoch { id: cosmwasm_std::Uint64::new(id) }))); }
+        qs.into_iter().map(|(n, r)| (n, match r { Ok(b) => String::from_utf8_lossy(b.as_slice()).to_string(), Err(e) => format!("error: {:?}", e) })).collect::<Vec<_>>()
+    };
+    let before = q(&deps);
+    let r = run_catch(|| fee_distributor::contract::migrate(deps.as_mut(), env_at(time, height), MigrateMsg {}).map(|_| ()), |_e| E_OTHER);
+    let migrated = match r { Outcome::Ok(()) => Ok(()), Outcome::Err(_) => Err("error".to_string()), Outcome::Panic(m) => Err(format!("abort: {m}")) };
+    let after = q(&deps);
+    judge_for(out, "C09", "fee_distributor", &from, migrated, before, after);
+}
+
 fn judge(out: &mut Out, what: &str, from: &str, migrated: Result<(), String>, before: Vec<(String, String)>, after: Vec<(String, String)>) {
+    let (before, after) = (canon(before), canon(after));
     out.monitor_evals += 1;
     let replay = json!({"kind": "migration_probe", "contract": what, "migrated_from_version": from, "ledger_queries_before": before, "ledger_queries_after": after});
     out.count(&format!("migration:{}:{}", what, if migrated.is_ok() { "ok" } else { "rejected" }));
@@ -82,4 +145,42 @@ pub fn probe_trio(out: &mut Out, dump: &[(Vec<u8>, Vec<u8>)]) {
     let migrated = match r { Outcome::Ok(()) => Ok(()), Outcome::Err(_) => Err("error".to_string()), Outcome::Panic(m) => Err(format!("abort: {m}")) };
     let after = q(&deps);
     judge(out, "three-asset pool", &from, migrated, before, after);
+}
+
+/// incentive: `migrate` from 1.0.5, the last version whose flows had neither a label nor an asset history. The flow records of a live
+/// contract whose flows carry no label and were never expanded ARE that layout once the two fields are removed; the migration then has
+/// to give back exactly the flows the contract reported before (funding, claimed amount, emitted tokens, range). (C12)
+pub fn probe_incentive(out: &mut Out, dump: &[(Vec<u8>, Vec<u8>)]) {
+    use white_whale_std::pool_network::incentive::{MigrateMsg, QueryMsg};
+    let mut deps = mock_dependencies();
+    let mut prefix = (5u16).to_be_bytes().to_vec(); prefix.extend_from_slice(b"flows");
+    let mut applicable = false;
+    for (k, v) in dump {
+        if k.as_slice() == b"contract_info" { continue; }
+        if k.starts_with(&prefix) {
+            let Ok(mut j) = serde_json::from_slice::<Value>(v) else { out.count("migration:incentive:unreadable_flow"); return };
+            let plain = j.get("flow_label").map(|l| l.is_null()).unwrap_or(true) && j.get("asset_history").and_then(|h| h.as_object()).map(|h| h.is_empty()).unwrap_or(true);
+            if !plain { out.count("migration:incentive:flows_not_in_the_old_shape"); return; }
+            if let Some(o) = j.as_object_mut() { o.remove("flow_label"); o.remove("asset_history"); }
+            deps.storage.set(k, &serde_json::to_vec(&j).unwrap());
+            applicable = true;
+        } else { deps.storage.set(k, v); }
+    }
+    if !applicable { out.count("migration:incentive:no_flows"); return; }
+    // what the live contract reported (its own storage, untouched)
+    let mut live = mock_dependencies();
+    for (k, v) in dump { live.storage.set(k, v); }
+    let ask = |d: &OwnedDeps<MockStorage, MockApi, MockQuerier>| -> Vec<(String, String)> {
+        [("Flows", QueryMsg::Flows { start_epoch: None, end_epoch: None }), ("Config", QueryMsg::Config {})].into_iter()
+            .map(|(n, m)| (n.to_string(), match incentive::contract::query(d.as_ref(), mock_env(), m) { Ok(b) => String::from_utf8_lossy(b.as_slice()).to_string(), Err(e) => format!("error: {:?}", e) })).collect()
+    };
+    let before = ask(&live);
+    let info = dump.iter().find(|(k, _)| k.as_slice() == b"contract_info").and_then(|(_, v)| serde_json::from_slice::<Value>(v).ok());
+    let Some(mut info) = info else { return };
+    info["version"] = json!("1.0.5");
+    deps.storage.set(b"contract_info", &serde_json::to_vec(&info).unwrap());
+    let r = run_catch(|| incentive::contract::migrate(deps.as_mut(), mock_env(), MigrateMsg {}).map(|_| ()), |_e| E_OTHER);
+    let migrated = match r { Outcome::Ok(()) => Ok(()), Outcome::Err(_) => Err("error".to_string()), Outcome::Panic(m) => Err(format!("abort: {m}")) };
+    let after = ask(&deps);
+    judge_for(out, "C12", "incentive (from the 1.0.5 flow layout)", "1.0.5", migrated, before, after);
 }
